@@ -373,7 +373,12 @@ impl<P: Payload + Clone> Recorder<P> {
     /// arena WITHOUT logging each of them, then logs one `inject` event that stands for all of them.
     /// Every id issued on the way is real and stays in the is_removed sample population.
     pub fn fast_forward(&mut self, slot: usize, cycles: u32) -> Result<(), String> {
-        let tokv = self.sim.arena[self.sim.id(slot)].get().tok();
+        // a payload that cannot be read (a call that panicked half-way left the slot in pieces) is data, not a tool error:
+        // nothing is fast-forwarded then, the logged events around this point show the state as it is
+        let tokv = match std::panic::catch_unwind(std::panic::AssertUnwindSafe(|| self.sim.arena[self.sim.id(slot)].get().tok())) {
+            Ok(t) => t,
+            Err(_) => return Ok(()),
+        };
         // how many cycles go through silently: probe on a clone; stop before anything that the logged
         // events must show (slot not reused, id reissued, panic)
         let mut probe = self.sim.arena.clone();
